@@ -46,7 +46,8 @@ void shim_learn_next_fetch_or(void);       /* the next atomic fetch_or's address
 const void *shim_watched(void);
 void shim_watch(const void *addr);
 int64_t shim_last_watched_load(void);      /* level-0 point index of the last atomic load of the watched word, -1 none */
-void shim_clear_last_watched_load(void);
+void shim_clear_last_watched_load(void);      /* also clears the last-write index */
+int64_t shim_last_write0(void);            /* level-0 point index of the last plain write by instrumented code, -1 none */
 
 /* ---- guard zones: ranges librfn must never touch ---- */
 void shim_guard_add(const void *lo, size_t len);
